@@ -8,8 +8,7 @@ statement's end line of every unreachable block with statements; severity) and `
 
 Input = the statement skeleton AS THE PARSER DELIVERS IT (the harness dumps it from the real
 parser.Node tree), with source line spans; so parser defects are outside this model (they are
-checked by the parser-glue tie) and builder quirks are inside it (e.g. the body of a loop `else`
-is not processed, finding F12; a converted `elif` carries no location).
+checked by the parser-glue tie) and builder quirks are inside it (e.g. a converted `elif` carries no location).
 Core-only (linked into the driver).
 -/
 namespace PV.CFG
@@ -70,7 +69,7 @@ structure St where
   stmts : List SRec                -- in insertion order (reversed: newest first)
   edges : List (Nat × Nat × ETy)   -- newest first
   unreach : List Nat               -- blocks labelled "unreachable"
-  loops : List (Nat × Nat)         -- (header, exit), innermost first
+  loops : List (Nat × Nat × Nat)   -- (header, exit, depth of the exception stack at loop entry), innermost first
   excs : List Exc                  -- innermost first
   deriving Repr
 
@@ -131,9 +130,13 @@ def targetFinallyRet (st : St) : Option Nat :=
     | some f => if st.cur != f then some f else none
     | none => none))
 
-/-- innermost finally for break / continue / raise: skips contexts whose finally body is being processed -/
+/-- innermost finally for `raise`: skips contexts whose finally body is being processed -/
 def targetFinally (st : St) : Option Nat :=
   (st.excs.findSome? (fun c => if c.processingFinally then none else c.fin))
+
+/-- innermost finally for break / continue: only `try` statements opened INSIDE the loop (exception-stack depth `d` at loop entry) -/
+def targetFinallyLoop (st : St) (d : Nat) : Option Nat :=
+  ((st.excs.take (st.excs.length - d)).findSome? (fun c => if c.processingFinally then none else c.fin))
 
 /-- first exception context that is not processing its finally (fallback for `raise`) -/
 def fallbackExc (st : St) : Option Exc := st.excs.find? (fun c => !c.processingFinally)
@@ -151,8 +154,8 @@ def procBrk (st : St) (s e : Nat) : St :=
   let st := st.add st.cur s e .brk
   match st.loops with
   | [] => st
-  | (_, ex) :: _ =>
-    let st := match targetFinally st with
+  | (_, ex, d) :: _ =>
+    let st := match targetFinallyLoop st d with
       | some f => st.edge st.cur f .brk
       | none => st.edge st.cur ex .brk
     let (u, st) := st.newUnreach
@@ -162,8 +165,8 @@ def procCont (st : St) (s e : Nat) : St :=
   let st := st.add st.cur s e .cont
   match st.loops with
   | [] => st
-  | (hdr, _) :: _ =>
-    let st := match targetFinally st with
+  | (hdr, _, d) :: _ =>
+    let st := match targetFinallyLoop st d with
       | some f => st.edge st.cur f .cont
       | none => st.edge st.cur hdr .cont
     let (u, st) := st.newUnreach
@@ -190,11 +193,13 @@ def finallyPropagation (st : St) (fin : Nat) : St :=
     | none => conn st exitB .ret
   let st := match st.loops with
     | [] => st
-    | (hdr, ex) :: _ =>
-      let st := match nextOuter with
+    | (hdr, ex, d) :: _ =>
+      -- only finally blocks of try statements inside the same loop intercept break/continue
+      let nextLoop : Option Nat := (outer.take (st.excs.length - 1 - d)).findSome? (fun c => c.fin)
+      let st := match nextLoop with
         | some o => conn st o .brk
         | none => conn st ex .brk
-      match nextOuter with
+      match nextLoop with
         | some o => conn st o .cont
         | none => conn st hdr .cont
   match nextOuter with
@@ -219,7 +224,7 @@ mutual
     | .ite s e thn orelse => procIf st s e thn orelse
     | .elifc _ _ thn orelse =>                          -- "unexpected elif_clause as standalone statement": converted, processed as an if
       procIf st 0 0 thn orelse
-    | .elsec _ _ _ => st                                -- standalone else_clause: only `Children` blocks are looked at; the parser fills `Body`
+    | .elsec _ _ body => procList st body               -- standalone else_clause (loop else): its Body is processed
     | .loop s e body orelse => procLoop st s e body orelse
     | .try_ s e body handlers orelse fin => procTry st s e body handlers orelse fin
     | .handler s e _ => st.add st.cur s e .other        -- never a standalone statement; default branch
@@ -366,14 +371,14 @@ mutual
     let hasElse := !orelse.isEmpty
     let (elseB, st) := if hasElse then st.newBlock else (0, st)
     let savedLoops := st.loops
-    let st := { st with loops := (hdr, exitBk) :: st.loops }
+    let st := { st with loops := (hdr, exitBk, st.excs.length) :: st.loops }
     let st := st.edge hdr bodyB .condT
     let st := if hasElse then st.edge hdr elseB .condF else st.edge hdr exitBk .condF
     let st := procList { st with cur := bodyB } body
     let st := st.edgeUnlessExit st.cur hdr .loop
     let st :=
       if hasElse then
-        let st := procList { st with cur := elseB } orelse    -- the items are else_clause nodes: procStmt ignores them
+        let st := procList { st with cur := elseB } orelse    -- the items are else_clause nodes: procStmt processes their Body
         st.edgeUnlessExit st.cur exitBk .normal
       else st
     { st with cur := exitBk, loops := savedLoops }
